@@ -810,10 +810,20 @@ fn main() {
                 if let Some(k) = &ak {
                     let _ = gpa_harness::key_keeper::key::attest_key(&base, k).await;
                 }
+                // the agent's own signing route with a body (what a telemetry or attestation call with a payload would take):
+                // built by build_request, written to the socket by send_request
+                for (m, body) in [(hyper::Method::POST, &b"{\"payload\": \"own call with a body of 44 byte\"}"[..]), (hyper::Method::PUT, &b"x"[..])] {
+                    let url: hyper::Uri = "http://168.63.129.16/machine/own?comp=body&n=1".parse().unwrap();
+                    let mut h = std::collections::HashMap::new();
+                    h.insert("x-ms-version".to_string(), "2012-11-30".to_string());
+                    if let Ok(req) = gpa_harness::common::hyper_client::build_request(m, &url, &h, Some(body), key.map(|k| k.0.to_string()), key.map(|k| k.1.to_string())) {
+                        let _ = gpa_harness::common::hyper_client::send_request("168.63.129.16", 80, req, |_s: String| {}).await;
+                    }
+                }
             });
             let mut got: Vec<(String, Msg)> = w.hosts.ws.requests_since(cur_ws).into_iter().map(|(_, m)| ("wireserver".to_string(), m)).collect();
             got.extend(w.hosts.imds.requests_since(cur_imds).into_iter().map(|(_, m)| ("imds".to_string(), m)));
-            let expect_n = if key.is_some() { 4 } else { 3 };
+            let expect_n = if key.is_some() { 6 } else { 5 };
             if got.len() != expect_n {
                 res.violation("own-call:not-received", &format!("{} of {} own host calls reached the mock hosts", got.len(), expect_n), json!({"family": "own-calls", "key": key.map(|k| k.0)}));
             }
@@ -838,7 +848,7 @@ fn main() {
         }
         res.cov(
             "rule",
-            "proxied: 4 methods x 7 targets x 6 client header sets x 5 body framings (none, 1 byte, 1000 bytes content-length, 1000 bytes chunked, empty) x 2 callers x 2 keys (quick: reduced product), each relayed request verified at the mock host from the raw bytes it received (independent canonicaliser + HMAC, key looked up by the announced id); exempt uploads and their near misses; no key => unsigned; the agent's own calls get_goalstate / get_shared_config / get_imds_instance_info / attest_key under K1, K2 and no key; distinct = distinct request shapes".to_string(),
+            "proxied: 4 methods x 7 targets x 6 client header sets x 5 body framings (none, 1 byte, 1000 bytes content-length, 1000 bytes chunked, empty) x 2 callers x 2 keys (quick: reduced product), each relayed request verified at the mock host from the raw bytes it received (independent canonicaliser + HMAC, key looked up by the announced id); exempt uploads and their near misses; no key => unsigned; the agent's own calls get_goalstate / get_shared_config / get_imds_instance_info / attest_key and two own calls with a body (build_request + send_request) under K1, K2 and no key; distinct = distinct request shapes".to_string(),
         );
     }
 
